@@ -386,8 +386,26 @@ def b_bytes(I, fv, args, kwargs, node):
         except Exception:
             pass
     if I.as_str(v) is not None or (isinstance(v, Unk) and enc):
+        _strict_encode(I, v, enc, kwargs.get("errors", args[2] if len(args) > 2 else None), node)
         return Bytes(v, enc or "?")
     return Unk(f"bytes({I.tag(v)})")
+
+
+UNICODE_COMPLETE = ("utf-8", "utf8", "utf-16", "utf-32", "utf-16-le", "utf-16-be", "utf-32-le", "utf-32-be", "utf-7", "gb18030")
+
+
+def _strict_encode(I, v, enc, errors, node):
+    """Encoding arbitrary text with a codec that does not cover Unicode (ascii, latin-1, cp1252, ...) and the
+    default 'strict' error handler raises UnicodeEncodeError for some texts."""
+    if not enc or enc.lower().replace("_", "-") in UNICODE_COMPLETE:
+        return
+    e = I.strval(I.force(errors)) if errors is not None else "strict"
+    if e != "strict":
+        return
+    sv = I.as_str(v)
+    free = [p_ for p_ in (sv.parts if sv is not None else [v]) if isinstance(p_, (Text, Fmt, StrOf, Unk)) and not (isinstance(p_, StrOf) and isinstance(p_.value, (Num, Const)))]
+    if free and not I.decide(f"encodable:{enc}:{I.tag(v)[:120]}", [True, False]):
+        I.raise_("UnicodeEncodeError", node, note=f"'{enc}' codec can't encode a character of the text")
 
 
 def b_dict(I, fv, args, kwargs, node):
@@ -1584,7 +1602,8 @@ def str_method(I, recv, name, args, kwargs, node):
             r = I.decide(f"{name}:{I.tag(recv)}", [True, False])
             return Const(r)
         if name == "encode":
-            enc = consts[0] if consts else "utf-8"
+            enc = consts[0] if consts else (I.strval(I.force(kwargs["encoding"])) if "encoding" in kwargs else "utf-8")
+            _strict_encode(I, recv, enc, kwargs.get("errors", args[1] if len(args) > 1 else None), node)
             return Bytes(recv, enc or "?")
         if name == "split":
             return Unk(f"split({I.tag(recv)})", "strlist")
